@@ -58,8 +58,8 @@ class C13(E1Check):
 
     def rule(self):
         return (
-            "all (state, operation) pairs of a BFS of depth<=D over the crash alphabet (CSV, flush_on_insert=True, auto_index "
-            "on/off); for every recorded raw-I/O step k of the operation an OSError is injected before the step (after it for "
+            "all (state, operation) pairs of a BFS of depth<=D over the crash alphabet (CSV, auto_index on/off, plus a "
+            "flush_on_insert=False configuration in which rows reach the file at a later seek or at close); for every recorded raw-I/O step k of the operation an OSError is injected before the step (after it for "
             "fsync/close/effective flush as well), followed by every continuation of the menu (6 single operations and pairs "
             "starting with an insert or an index-served count; thorough: all pairs). distinct_nontrivial = injected faults that "
             "hit a step which mutates a file (write, truncate, copy, replace, unlink, close)"
@@ -69,9 +69,14 @@ class C13(E1Check):
         nb = 110 if self.tier == "quick" else 1100   # beyond batch sizes of 100 / 1000
         bulk = {"name": f"csv/auto/bulk-insert-{nb}", "storage": "csv", "auto_index": True, "N": nb + 100, "D": 1, "ladder": 1, "bulk": nb,
                 "init": (("insert", "P0", None, False, "db"),)}
+        # rows stay in Python's buffer until a later seek / close: an error in close() must not lose them for good
+        buffered = {"name": "csv/auto/flush_on_insert=False", "storage": "csv", "auto_index": True, "csv": {"flush_on_insert": False},
+                    "D": 2 if self.tier == "quick" else 3}
         return [
             {"name": "csv/auto", "storage": "csv", "auto_index": True},
             {"name": "csv/manual", "storage": "csv", "auto_index": False},
+            buffered,
+            {"name": "csv/auto/symlinked-path", "storage": "csv", "auto_index": True, "symlink": True, "D": 2},
         ] + self.ladder_cfgs() + [bulk]
 
     def ladder_cfgs(self):
